@@ -339,6 +339,27 @@ static void builder_sequences(Ctx &c, const char *name) {
         Outcome o = outcome_of([&] { pgm::internal::OptimalPiecewiseLinearModel<X, long> m(e); (void) m; });
         if (o != INVALID_ARGUMENT) c.run.violation(cs, std::string("negative epsilon: expected std::invalid_argument, got ") + oname(o));
     }
+    // negative epsilon on every other signed rank type, integral (narrow and wide) and floating (fractions and -infinity as well)
+    auto neg_eps = [&](auto tag, const char *yname, std::initializer_list<long double> es) {
+        using Y = decltype(tag);
+        for (long double ed : es) {
+            Y e = Y(ed);
+            std::string cs = std::string("part=builder x_type=") + name + " y_type=" + yname + " negative_eps=" + std::to_string(ed);
+            c.run.set_case(cs); c.run.add(c.cn.cases); c.run.add(c.cn.invalid);
+            Outcome o = outcome_of([&] { pgm::internal::OptimalPiecewiseLinearModel<X, Y> m(e); (void) m; });
+            if (o != INVALID_ARGUMENT) c.run.violation(cs, std::string("negative epsilon: expected std::invalid_argument, got ") + oname(o));
+        }
+        for (long double ed : {0.0L, 1.0L, 5.0L}) {
+            c.run.add(c.cn.valid);
+            Outcome o = outcome_of([&] { Y ev = Y(ed); pgm::internal::OptimalPiecewiseLinearModel<X, Y> m(ev); m.add_point(X(1), Y(0)); });
+            if (o != ACCEPTED) c.run.violation(std::string("part=builder x_type=") + name + " y_type=" + yname + " eps=" + std::to_string(ed), "non-negative epsilon was rejected");
+        }
+    };
+    neg_eps(int8_t(0), "i8", {-1.0L, -128.0L}); neg_eps(int16_t(0), "i16", {-1.0L, -32768.0L}); neg_eps(int32_t(0), "i32", {-1.0L, -7.0L, -2147483648.0L});
+    neg_eps((long long)0, "long long", {-1.0L, -9223372036854775808.0L});
+    neg_eps(float(0), "float", {-1.0L, -2.0L, -0.25L, -1e-30L, -3e38L, -(long double) std::numeric_limits<float>::infinity()});
+    neg_eps(double(0), "double", {-1.0L, -0.25L, -64.0L, -1e-300L, -1e308L, -(long double) std::numeric_limits<double>::infinity()});
+    neg_eps((long double)0, "long double", {-1.0L, -1e-3L, -1e4000L});
     for (long e : {0L, 1L, 5L}) {
         c.run.add(c.cn.valid);
         Outcome o = outcome_of([&] { pgm::internal::OptimalPiecewiseLinearModel<X, long> m(e); m.add_point(X(1), 0); });
@@ -437,7 +458,7 @@ int main(int argc, char **argv) {
     ev.rule = "every sorted array of length 1.." + std::to_string(N) + " over three palettes with 1..3 copies of the reserved value appended (numeric max, +infinity for floating keys) must make PGMIndex, CompressedPGMIndex, BucketingPGMIndex, EliasFanoPGMIndex, MappedPGMIndex (range and raw-file constructors) throw std::invalid_argument and the four C create functions return NULL, while the same array without it is accepted; the same with 32767/32768/40000-key inputs and 1..20 construction threads (chunked segmentation); "
               "DynamicPGMIndex: every base 2..255 through three constructors (reject iff not a power of two); every sequence of <= " + std::to_string(thorough ? 5 : 4) + " bulk-load keys over 4 values (reject iff an inversion exists); every history of depth <= " + std::to_string(D) +
               " over 3 keys (mapped types u32, and at a smaller depth i32, u64, double, float, u8 with keys of another type) with the reserved mapped value offered for 4 keys at every point and the values next to it, -1, +infinity and the largest key value stored and found on a copy (must throw and leave canonical state and all answers unchanged) and lo>hi ranges tried at every point; MultidimensionalPGMIndex: every point position x dimension with the coordinate at the first too-wide value and above (reject) and just below (accept), also from tuples of a wider integer type whose values only fit after truncation and from tuples of signed types with negative coordinates; "
-              "builder: every add_point sequence of length <= 4 over 3 x-values, epsilon 0/1 (std::logic_error exactly when x does not exceed its predecessor inside a segment), negative epsilon on a signed rank type. State = one case; non-trivial = an invalid input that must be rejected.";
+              "builder: every add_point sequence of length <= 4 over 3 x-values, epsilon 0/1 (std::logic_error exactly when x does not exceed its predecessor inside a segment), negative epsilon on every signed rank type (8..64-bit integers, float, double, long double; whole, fractional, huge and infinite values). State = one case; non-trivial = an invalid input that must be rejected.";
     ev.bounds = "N<=" + std::to_string(N) + ", history depth " + std::to_string(D);
     ev.assumptions = {"the kind of exception is the one the property names; for too-wide coordinates any exception counts as rejection"};
     return run.finish(ev);
